@@ -904,7 +904,10 @@ pub fn scenarios(prop: &str, tier: &str) -> Vec<Arc<dyn Scenario>> {
                 ac.wms = vec![Wm::Tight, Wm::Zero];
                 ac.snap = !quick;
                 let bd = if quick { bs(4, 4, 0, 0, 0) } else { bs(5, 5, 1, 1, 0) };
-                v.push(std("C13-cascade", TreeCfg::small(keys_ab()), ac, bd, vec![vec![]], OracleKind::C13));
+                v.push(std("C13-cascade", TreeCfg::small(keys_ab()), ac.clone(), bd, vec![vec![]], OracleKind::C13));
+                // the same on a key-value separated tree whose threshold makes every value a blob
+                let bdb = if quick { bs(3, 3, 0, 0, 0) } else { bs(4, 4, 1, 1, 0) };
+                v.push(std("C13-cascade-blob0", TreeCfg::small(keys_ab()).with_blob(0), ac, bdb, vec![vec![]], OracleKind::C13));
             }
             {
                 // one key whose first value already lies in the last level: later weak tombstones and
